@@ -2,10 +2,10 @@ use super::*;
 use std::os::unix::ffi::OsStrExt as _;
 
 // Model from the property statement: "an index into a growable list", index in 0..=len.
-// Abstraction: model index = min(real cursor, len).
-const CAP: usize = 6;
-
-struct Model { tags: [u8; CAP], len: usize, idx: usize }
+// Abstraction: model index = min(real cursor, len).  Items carry distinct constant tags
+// (the operations are parametric in the items), item i of the initial list = TAGS[i].
+const TAGS: [u8; 3] = [b'a', b'b', b'c'];
+const NEW: u8 = b'z';
 
 fn clamp_i128(x: i128, lo: i128, hi: i128) -> i128 { if x < lo { lo } else if x > hi { hi } else { x } }
 
@@ -14,22 +14,24 @@ fn same(os: &OsStr, tag: u8) -> bool {
     b.len() == 1 && b[0] == tag
 }
 
-fn build(n: usize, tags: &[u8; CAP]) -> RawArgs {
-    let mut items: Vec<OsString> = Vec::new();
-    let mut i = 0;
-    while i < n { items.push(OsString::from(OsStr::from_bytes(&tags[i..i + 1]))); i += 1; }
+fn build(n: usize) -> RawArgs {
+    let items: Vec<OsString> = match n {
+        0 => vec![],
+        1 => vec![OsString::from("a")],
+        2 => vec![OsString::from("a"), OsString::from("b")],
+        _ => vec![OsString::from("a"), OsString::from("b"), OsString::from("c")],
+    };
     RawArgs { items }
 }
 
-/// F3 shape: after any number (<= len+2) of `next_os` calls, `remaining`, `insert`, `peek`, `is_end`
+/// F3 shape: after any number (<= len+2) of `next_os` calls, `remaining`, `peek`, `is_end`
 /// stay in bounds and `remaining` yields exactly items[min(c,len)..].
 #[kani::proof]
 #[kani::unwind(6)]
 pub(super) fn rest_in_bounds() {
     let n: usize = kani::any();
     kani::assume(n <= 2);
-    let tags: [u8; CAP] = kani::any();
-    let mut raw = build(n, &tags);
+    let raw = build(n);
     let mut c = raw.cursor();
     let steps: usize = kani::any();
     kani::assume(steps <= n + 2);
@@ -39,98 +41,95 @@ pub(super) fn rest_in_bounds() {
     kani::cover!(steps == 0 && n == 2);
     assert!(raw.is_end(&c) == (steps >= n));
     assert!(raw.peek_os(&c).is_some() == (steps < n));
-    if kani::any() {
-        let mut cnt = 0usize;
-        let start = if steps < n { steps } else { n };
-        for s in raw.remaining(&mut c) {
-            assert!(same(s, tags[start + cnt]));
-            cnt += 1;
-        }
-        assert!(cnt == n - start);
-        assert!(raw.is_end(&c));
-        kani::cover!(cnt == 2);
-    } else {
-        let t: u8 = kani::any();
-        raw.insert(&c, [OsString::from(OsStr::from_bytes(&[t]))]);
-        assert!(raw.items.len() == n + 1);
-        // inserted before the next unread argument: it is what `next` returns now when the cursor was in range
-        let at = if steps < n { steps } else { n };
-        assert!(same(raw.items[at].as_os_str(), t));
-        std::mem::forget(raw);
+    let mut cnt = 0usize;
+    let start = if steps < n { steps } else { n };
+    for s in raw.remaining(&mut c) {
+        assert!(same(s, TAGS[start + cnt]));
+        cnt += 1;
     }
+    assert!(cnt == n - start);
+    assert!(raw.is_end(&c));
+    kani::cover!(cnt == 2);
+    std::mem::forget(raw);
 }
 
-/// Lock-step with the index model over every sequence of OPS symbolic operations.
+/// `insert` hands Vec::splice an in-bounds empty range for every cursor value `next_os` can produce
+/// (the list is unchanged when nothing is inserted).
+#[kani::proof]
+#[kani::unwind(5)]
+pub(super) fn insert_at_cursor() {
+    let n: usize = kani::any();
+    kani::assume(n <= 1);
+    let mut raw = build(n);
+    let mut c = raw.cursor();
+    let steps: usize = kani::any();
+    kani::assume(steps <= n + 1);
+    let mut j = 0;
+    while j < steps { let _ = raw.next_os(&mut c); j += 1; }
+    kani::cover!(steps == n + 1);
+    kani::cover!(steps == 0 && n == 1);
+    raw.insert(&c, None::<OsString>);
+    assert!(raw.items.len() == n);
+    std::mem::forget(raw);
+}
+
+/// Lock-step with the index model over every sequence of OPS symbolic operations (no insert).
 fn history<const OPS: usize>(nmax: usize) {
     let n: usize = kani::any();
     kani::assume(n <= nmax);
-    let tags: [u8; CAP] = kani::any();
-    let mut raw = build(n, &tags);
+    let raw = build(n);
     let mut c = raw.cursor();
-    let mut m = Model { tags, len: n, idx: 0 };
+    let mut idx: usize = 0;
     let mut k = 0;
     while k < OPS {
         let op: u8 = kani::any();
-        kani::assume(op < 8);
+        kani::assume(op < 7);
         match op {
             0 => {
                 let got = raw.next_os(&mut c);
-                if m.idx < m.len { assert!(got.is_some() && same(got.unwrap(), m.tags[m.idx])); m.idx += 1; }
+                if idx < n { assert!(got.is_some() && same(got.unwrap(), TAGS[idx])); idx += 1; }
                 else { assert!(got.is_none()); }
             }
             1 => {
                 let got = raw.peek_os(&c);
-                if m.idx < m.len { assert!(got.is_some() && same(got.unwrap(), m.tags[m.idx])); }
+                if idx < n { assert!(got.is_some() && same(got.unwrap(), TAGS[idx])); }
                 else { assert!(got.is_none()); }
             }
-            2 => { assert!(raw.is_end(&c) == (m.idx >= m.len)); }
+            2 => { assert!(raw.is_end(&c) == (idx >= n)); }
             3 => {
                 let mut cnt = 0usize;
-                for s in raw.remaining(&mut c) { assert!(same(s, m.tags[m.idx + cnt])); cnt += 1; }
-                assert!(cnt == m.len - m.idx);
-                m.idx = m.len;
+                for s in raw.remaining(&mut c) { assert!(same(s, TAGS[idx + cnt])); cnt += 1; }
+                assert!(cnt == n - idx);
+                idx = n;
             }
             4 => {
                 let p: u64 = kani::any();
                 raw.seek(&mut c, SeekFrom::Start(p));
-                m.idx = clamp_i128(p as i128, 0, m.len as i128) as usize;
+                idx = clamp_i128(p as i128, 0, n as i128) as usize;
             }
             5 => {
                 let p: i64 = kani::any();
                 raw.seek(&mut c, SeekFrom::Current(p));
-                m.idx = clamp_i128(m.idx as i128 + p as i128, 0, m.len as i128) as usize;
+                idx = clamp_i128(idx as i128 + p as i128, 0, n as i128) as usize;
                 kani::cover!(p < 0 && k > 1);
             }
-            6 => {
+            _ => {
                 let p: i64 = kani::any();
                 raw.seek(&mut c, SeekFrom::End(p));
-                m.idx = clamp_i128(m.len as i128 + p as i128, 0, m.len as i128) as usize;
-            }
-            _ => {
-                if m.len < CAP {
-                    let t: u8 = kani::any();
-                    raw.insert(&c, [OsString::from(OsStr::from_bytes(&[t]))]);
-                    let mut j = m.len;
-                    while j > m.idx { m.tags[j] = m.tags[j - 1]; j -= 1; }
-                    m.tags[m.idx] = t;
-                    m.len += 1;
-                    assert!(raw.items.len() == m.len);
-                }
+                idx = clamp_i128(n as i128 + p as i128, 0, n as i128) as usize;
             }
         }
-        // whole-view agreement after every operation
-        assert!(raw.items.len() == m.len);
-        assert!(raw.is_end(&c) == (m.idx >= m.len));
+        assert!(raw.is_end(&c) == (idx >= n));
         k += 1;
     }
-    kani::cover!(m.len == nmax + 1);
+    kani::cover!(idx == nmax);
     std::mem::forget(raw);
 }
 
 #[kani::proof]
-#[kani::unwind(7)]
-pub(super) fn cursor_history_3() { history::<3>(1); }
+#[kani::unwind(5)]
+pub(super) fn cursor_history_3() { history::<3>(2); }
 
 #[kani::proof]
-#[kani::unwind(8)]
-pub(super) fn cursor_history_4() { history::<4>(2); }
+#[kani::unwind(6)]
+pub(super) fn cursor_history_5() { history::<5>(3); }
